@@ -23,3 +23,38 @@ func init() {
 		}
 	}
 }
+
+// grpcCodeNames: google.golang.org/grpc/codes.Code -> canonical name (codes.Code.String()).
+var grpcCodeNames = []string{"OK", "Canceled", "Unknown", "InvalidArgument", "DeadlineExceeded", "NotFound",
+	"AlreadyExists", "PermissionDenied", "ResourceExhausted", "FailedPrecondition", "Aborted", "OutOfRange",
+	"Unimplemented", "Internal", "Unavailable", "DataLoss", "Unauthenticated"}
+
+func grpcCodeName(v value) string {
+	c, ok := v.(uint32)
+	if !ok {
+		return "Code(<sym>)"
+	}
+	if int(c) < len(grpcCodeNames) {
+		return grpcCodeNames[c]
+	}
+	return "Code(?)"
+}
+
+func init() {
+	// google.golang.org/grpc/status.Errorf / Error: the real ones build a protobuf Status. The model
+	// is an engine error whose text is the real one ("rpc error: code = <Name> desc = <msg>");
+	// harnesses recognise the code by that text. status.Code(nil) / OK are not modelled.
+	if externals["google.golang.org/grpc/status.Errorf"] == nil {
+		externals["google.golang.org/grpc/status.Errorf"] = func(fr *frame, args []value) value {
+			stub("grpc/status.Errorf (model: error with text 'rpc error: code = <Name> desc = ...')")
+			msg, _ := formatMsg(fr, args[1].(string), args[2].([]value))
+			return newEngineError("rpc error: code = "+grpcCodeName(args[0])+" desc = "+msg, nil)
+		}
+	}
+	if externals["google.golang.org/grpc/status.Error"] == nil {
+		externals["google.golang.org/grpc/status.Error"] = func(fr *frame, args []value) value {
+			stub("grpc/status.Error (model: error with text 'rpc error: code = <Name> desc = ...')")
+			return newEngineError("rpc error: code = "+grpcCodeName(args[0])+" desc = "+args[1].(string), nil)
+		}
+	}
+}
